@@ -145,6 +145,7 @@ C19Inv == step = 1 => \A k \in Kinds : \A r2 \in Specs :
        once == Build(w, w.roots \o <<r2>>, Opt(k))
        same == BuildOn(w, g1, w.roots, Opt(k))
    IN /\ same = g1
+      /\ SeqToSet(inc.roots) = SeqToSet(once.roots)
       /\ (\A s \in (DOMAIN inc.slots) \cup (DOMAIN once.slots) :
             (s \in DOMAIN inc.slots /\ s \in DOMAIN once.slots /\ SlotObs(inc.slots[s]) = SlotObs(once.slots[s])) \/ s \in CtxTargets)
 
